@@ -16,7 +16,7 @@ namespace verif {
 // provided by the harness: blocks until the scheduler lets the calling thread perform its next shared action
 void sched_point();
 // provided by the harness: append an event of the calling thread ("A" fetch_add, "S" fetch_sub) with the value read
-void log_rmw(char kind, unsigned long old_value);
+void log_rmw(char kind, unsigned long old_value, const void* addr);
 
 template <typename T>
 class atomic
@@ -28,22 +28,22 @@ public:
     constexpr atomic(T v) noexcept : v_(v) {}
     atomic(const atomic&) = delete;
     atomic& operator=(const atomic&) = delete;
-    T operator++() noexcept { sched_point(); T old = v_; v_ = static_cast<T>(old + 1); log_rmw('A', old); return v_; }
-    T operator--() noexcept { sched_point(); T old = v_; v_ = static_cast<T>(old - 1); log_rmw('S', old); return v_; }
-    T operator++(int) noexcept { sched_point(); T old = v_; v_ = static_cast<T>(old + 1); log_rmw('A', old); return old; }
-    T operator--(int) noexcept { sched_point(); T old = v_; v_ = static_cast<T>(old - 1); log_rmw('S', old); return old; }
+    T operator++() noexcept { sched_point(); T old = v_; v_ = static_cast<T>(old + 1); log_rmw('A', old, this); return v_; }
+    T operator--() noexcept { sched_point(); T old = v_; v_ = static_cast<T>(old - 1); log_rmw('S', old, this); return v_; }
+    T operator++(int) noexcept { sched_point(); T old = v_; v_ = static_cast<T>(old + 1); log_rmw('A', old, this); return old; }
+    T operator--(int) noexcept { sched_point(); T old = v_; v_ = static_cast<T>(old - 1); log_rmw('S', old, this); return old; }
     T fetch_add(T d, ::std::memory_order = ::std::memory_order_seq_cst) noexcept
-    { sched_point(); T old = v_; v_ = static_cast<T>(old + d); log_rmw(d == 1 ? 'A' : '?', old); return old; }
+    { sched_point(); T old = v_; v_ = static_cast<T>(old + d); log_rmw(d == 1 ? 'A' : '?', old, this); return old; }
     T fetch_sub(T d, ::std::memory_order = ::std::memory_order_seq_cst) noexcept
-    { sched_point(); T old = v_; v_ = static_cast<T>(old - d); log_rmw(d == 1 ? 'S' : '?', old); return old; }
+    { sched_point(); T old = v_; v_ = static_cast<T>(old - d); log_rmw(d == 1 ? 'S' : '?', old, this); return old; }
     // EVERY atomic operation is a scheduling point, plain loads and stores included (a decrement written as
     // fetch_sub followed by a separate load must be interruptible between the two).  Loads are logged as "L" (the
     // model ignores them: unique(), use_count()), stores as "W" (the model has no store event: such a trace is
     // rejected).  The interleaving harness is compiled with -DNDEBUG so that the asserts of ReferenceCounter do not
     // add a load to every operation.
-    operator T() const noexcept { sched_point(); log_rmw('L', v_); return v_; }
-    T load(::std::memory_order = ::std::memory_order_seq_cst) const noexcept { sched_point(); log_rmw('L', v_); return v_; }
-    void store(T v, ::std::memory_order = ::std::memory_order_seq_cst) noexcept { sched_point(); log_rmw('W', v_); v_ = v; }
+    operator T() const noexcept { sched_point(); log_rmw('L', v_, this); return v_; }
+    T load(::std::memory_order = ::std::memory_order_seq_cst) const noexcept { sched_point(); log_rmw('L', v_, this); return v_; }
+    void store(T v, ::std::memory_order = ::std::memory_order_seq_cst) noexcept { sched_point(); log_rmw('W', v_, this); v_ = v; }
     T operator=(T v) noexcept { store(v); return v; }
 };
 } // namespace verif
